@@ -780,8 +780,16 @@ var MergeFunc = function.New(&function.Spec{
 		attrsKnown := true
 		for i, arg := range args {
 			ty := arg.Type()
-			// any dynamic args mean we can't compute a type
+			// any dynamic args mean we can't compute a type, but the remaining
+			// arguments must still be valid because a null argument of
+			// unknown type does not prevent the call
 			if ty.Equals(cty.DynamicPseudoType) {
+				for _, other := range args[i+1:] {
+					oty := other.Type()
+					if !oty.IsMapType() && !oty.IsObjectType() && !oty.Equals(cty.DynamicPseudoType) {
+						return cty.NilType, fmt.Errorf("arguments must be maps or objects, got %#v", oty.FriendlyName())
+					}
+				}
 				return cty.DynamicPseudoType, nil
 			}
 
